@@ -69,6 +69,23 @@ def catchup_strategy():
     })
 
 
+def swap_strategy():
+    """the moment the pack puts the packed file in place: a reader with a warm cache asks the storage directly (history,
+    getTid, loadSerial, ... - the read paths that use the storage's own file handle under the storage lock, not the
+    pooled handles) after the m-th yield point that follows the packer's entry into the pool's write lock"""
+    from vlib import threadprog
+    probes = st.lists(st.tuples(st.just('probe'), st.sampled_from(threadprog.NAMES), st.integers(0, 4)).map(list),
+                      min_size=1, max_size=3)
+    return st.fixed_dictionaries({
+        'mode': st.just('threads'),
+        'programs': probes.map(lambda p: [['reader', p]]),
+        'schedule': st.tuples(st.integers(1, 2), st.integers(1, 16)).map(
+            lambda t: {'segments': [['release:FilePool', t[0], 0], ['any', 1, 0], ['any', t[1], 0]]}),
+        'second_packer': st.just(False), 'pack_back': st.sampled_from([0.0, 0.5, 1.5]), 'lines': st.just(False),
+        'warm': st.just(True),
+    })
+
+
 def execute_threads(case):
     """one packer with committers and readers under the deterministic scheduler"""
     import sys
@@ -159,7 +176,8 @@ def execute_threads(case):
 
 
 def strategy(tier):
-    return st.one_of(_enum_strategy(tier), _enum_strategy(tier), thread_strategy(), catchup_strategy())
+    return st.integers(0, 99).flatmap(lambda w: _enum_strategy(tier) if w < 48 else thread_strategy() if w < 72
+                                      else catchup_strategy() if w < 92 else swap_strategy())
 
 
 def _enum_strategy(tier):
